@@ -448,6 +448,10 @@ func (w *world) call(cs callSpec, q string) fsx.Call {
 		return fsx.Call{Op: "Link", A: w.R + "/f", B: q}
 	}
 
+	if cs.Open {
+		return fsx.Call{Op: "OpenFile", A: q, Flag: cs.Flag, Perm: openPerm}
+	}
+
 	return fsx.Call{Op: cs.Name, A: q}
 }
 
